@@ -501,6 +501,9 @@ class ServeMpsInitSeg(MediaRequestBase):
             logging.warning('Media file not  found: mps=%s ppk=%d filename=%s',
                             mps_name, ppk, filename)
             return flask.make_response('File not found', 404)
+        # generate_init_segment() needs current_stream to create the
+        # DRM context of an encrypted track
+        flask.g.stream = period.stream
         return self.generate_init_segment(media, mode, options)
 
     def calculate_media_segment_index(self,
